@@ -109,7 +109,7 @@ CLAIMS = {
     },
     "C06": {
         "engine": "E2-mirsym",
-        "text": "The whole loader is executed by the symbolic executor on one document per fault kind, once strict and once non-strict: strict Ok implies non-strict Ok with equal models; strict fails exactly when non-strict reports a problem that is not a deprecation notice (or fails too); every diagnostic carries the line of the faulty token. The skipping routine is additionally run with a symbolic strictness flag.",
+        "text": "The whole loader is executed by the symbolic executor on one document per fault kind (13 kinds, two layouts), once strict and once non-strict: strict Ok implies non-strict Ok with equal models; strict fails exactly when non-strict reports a problem that is not a deprecation notice (or fails too); every diagnostic carries the line of the faulty token. The skipping routine is additionally run with a symbolic strictness flag.",
         "design_ref": "DESIGN.md section 4 C06",
         "note": "Fault kinds are enumerated by forking (bounded shape); only the call sites reached by the template are covered. Trusted: E2 std models. Outside: IF_DATA interplay, the error_or_log sites of element parsers not in the template.",
         "technique": "bounded symbolic execution of MIR (fork per fault kind, symbolic strictness in the helper harnesses), native replay",
@@ -123,7 +123,7 @@ CLAIMS = {
     },
     "C18": {
         "engine": "E2-mirsym",
-        "text": "For a fixed family of five A2ML definitions the whole loader (A2ML capture, runtime A2ML parser, type-directed IF_DATA parser, fallback parser, writer, ifdata_cleanup) is executed by the symbolic executor on a conforming and on a deviating instance, with LF and CRLF line ends: validity flag is exact, every token survives load and write, and ifdata_cleanup removes exactly the invalid blocks; definitions whose sequence element matches zero tokens must not make loading spin.",
+        "text": "For a fixed family of eight A2ML definitions the whole loader (A2ML capture, runtime A2ML parser, type-directed IF_DATA parser, fallback parser, writer, ifdata_cleanup) is executed by the symbolic executor on a conforming and on a deviating instance, with LF and CRLF line ends: validity flag is exact, every token survives load and write, and ifdata_cleanup removes exactly the invalid blocks; definitions whose sequence element matches zero tokens must not make loading spin.",
         "design_ref": "DESIGN.md section 4 C18",
         "note": "NOT a claim over all A2ML definitions: a bounded family enumerated by forking. Trusted: E2 std models. Outside: built-in specification argument, depth > 2, generated instances.",
         "technique": "bounded symbolic execution of MIR (fork per definition/instance/line-end), step budget + native watchdog for non-termination, native replay",
